@@ -126,3 +126,18 @@ func VerifC03(shape int, T int, ascii int, twin int) {
 		prevNum = m.MatchNumber
 	}
 }
+
+// matches that are skipped (skip N) and span a line break: the position bookkeeping of the NEXT match
+var c03SkipShapes = []string{
+	"find skip 1 any any", "find skip 1 take 1 any any", "replace skip 1 any any with 'r'", "find skip 1 at least 1 not 'a'", "find skip 2 any whitespace",
+	"find skip 1 any any any", "find last 1 any any", "find skip 1 take 2 (any any) = x", "find skip 1 whitespace any", "find top 2 any any",
+}
+
+func VerifC03SkipCount() int { return len(c03SkipShapes) }
+
+func VerifC03Skip(shape int, T int) {
+	saved := c03Shapes
+	c03Shapes = c03SkipShapes
+	defer func() { c03Shapes = saved }()
+	VerifC03(shape, T, 1, 0)
+}
